@@ -3,6 +3,7 @@ mod c01;
 mod c05;
 mod c08;
 mod c09;
+mod c11;
 mod isa_sweep;
 mod mach;
 
@@ -14,6 +15,7 @@ fn main() {
         "C05" => c05::run(),
         "C08" => c08::run(),
         "C09" => c09::run(),
+        "C11" => c11::run(),
         "C15" => c01::run(c01::Mode::C15),
         _ => {
             eprintln!("MACHINERY-ERROR unknown property id '{}'", id);
